@@ -177,6 +177,9 @@ struct DefInfo {
     decl: usize,
     name: String,
     class: Option<String>,
+    /// the record a defm defines under its own name (`def "" : K` in its multiclass): a value of
+    /// class K whose declaration is the defm; the indexer does not know its class
+    via_defm: bool,
 }
 
 #[derive(Clone, Debug)]
@@ -184,6 +187,8 @@ struct McInfo {
     decl: usize,
     name: String,
     targs: Vec<(String, Ty, bool, usize)>,
+    /// class of the record the multiclass defines under the name of the instantiating defm
+    self_def: Option<String>,
 }
 
 #[derive(Clone, Debug)]
@@ -737,6 +742,14 @@ impl<'a> Sem<'a> {
                     self.w(&s)
                 }
             },
+            Ty::List(el) if !deep && matches!(**el, Ty::Int | Ty::Str | Ty::Class(_)) && self.rng.chance(1, 10) && self.on("list-paste") => {
+                // `a # b` on lists is their concatenation
+                let st = self.here();
+                self.value(ty, depth + 1);
+                self.w(" # ");
+                self.value(ty, depth + 1);
+                self.span("list-paste", st);
+            }
             Ty::List(el) => {
                 let el = (**el).clone();
                 match self.rng.below(if deep { 2 } else { 8 }) {
@@ -858,6 +871,24 @@ impl<'a> Sem<'a> {
                 self.ident(&c2, Role::Use(cd));
                 self.w(&format!(">(\"{n}\")"));
                 self.span("cast-class", st);
+            }
+            Ty::Class(c) if !deep && self.defs_of_class(c).len() >= 2 && self.rng.chance(1, 6) && self.on("if-of-records") => {
+                // `!if(c, d1, d2)` of two records of the class: a value of the class
+                let ds = self.defs_of_class(c);
+                let i = self.rng.below(ds.len());
+                let j = (i + 1 + self.rng.below(ds.len() - 1)) % ds.len();
+                let st = self.here();
+                self.p.feat.bang_ops += 1;
+                self.w("!if(");
+                self.value(&Ty::Bit, depth + 1);
+                self.w(", ");
+                self.ident(&ds[i].0, Role::Use(ds[i].1));
+                self.w(", ");
+                self.ident(&ds[j].0, Role::Use(ds[j].1));
+                let close = self.here();
+                self.w(")");
+                self.p.bang_sites.push((self.cur, "!if".to_string(), close, 3, st));
+                self.span("if-of-records", st);
             }
             Ty::Class(c) => {
                 let ds = self.defs_of_class(c);
@@ -1193,6 +1224,7 @@ impl<'a> Sem<'a> {
     fn has_field_access(&self, ty: &Ty) -> bool {
         self.defs.iter().any(|d| {
             !self.name_is_local(&d.name)
+                && !d.via_defm
                 && d.class.as_deref().and_then(|c| self.class(c)).map(|ci| ci.fields.values().any(|(t, fd)| t == ty && !self.p.decls[*fd].overridden && !self.uninit.contains(fd) && !self.redeclared.contains(fd))).unwrap_or(false)
         })
     }
@@ -1203,7 +1235,7 @@ impl<'a> Sem<'a> {
         // class of the base for the candidates that are defs (other ways to write the same record)
         let mut def_class: BTreeMap<String, String> = BTreeMap::new();
         for d in &self.defs {
-            if self.name_is_local(&d.name) {
+            if self.name_is_local(&d.name) || d.via_defm {
                 continue;
             }
             if let Some(ci) = d.class.as_deref().and_then(|c| self.class(c)) {
@@ -1697,7 +1729,7 @@ impl<'a> Sem<'a> {
             let pasted = self.paste_suffix(decl);
             self.w(";");
             if !pasted {
-                self.defs.push(DefInfo { decl, name, class: None });
+                self.defs.push(DefInfo { decl, name, class: None, via_defm: false });
             }
             let top = self.depth == 0;
             let ds = self.in_defset;
@@ -1726,7 +1758,7 @@ impl<'a> Sem<'a> {
         self.rec_targs = saved_t;
         self.rec_fields = saved_f;
         if !in_multiclass && !pasted {
-            self.defs.push(DefInfo { decl, name, class: parents.first().cloned() });
+            self.defs.push(DefInfo { decl, name, class: parents.first().cloned(), via_defm: false });
         }
         let top = self.depth == 0;
         let ds = self.in_defset;
@@ -1854,7 +1886,7 @@ impl<'a> Sem<'a> {
         let over_defs: Vec<(String, Vec<(String, usize)>)> = self
             .classes
             .iter()
-            .map(|c| (c.name.clone(), self.defs_of_class(&c.name)))
+            .map(|c| (c.name.clone(), self.defs_of_class(&c.name).into_iter().filter(|(n, _)| !self.defs.iter().any(|d| d.via_defm && d.name == *n)).collect::<Vec<_>>()))
             .filter(|(c, ds)| ds.len() >= 2 && self.class(c).map(|ci| ci.fields.values().any(|(t, fd)| *t == Ty::Int && !self.p.decls[*fd].overridden && !self.uninit.contains(fd) && !self.redeclared.contains(fd))).unwrap_or(false))
             .collect();
         if !over_defs.is_empty() && self.rng.chance(1, 4) && self.on("foreach-over-defs") {
@@ -2036,7 +2068,7 @@ impl<'a> Sem<'a> {
             self.class_ref(&cname, 1, false);
             self.w(";");
             if !pasted {
-                self.defs.push(DefInfo { decl, name, class: Some(cname.clone()) });
+                self.defs.push(DefInfo { decl, name, class: Some(cname.clone()), via_defm: false });
             }
             self.stmt_end("Def", s2, Some(decl), false, ds);
         }
@@ -2141,7 +2173,7 @@ impl<'a> Sem<'a> {
         self.w(" : ");
         self.class_ref(c, 1, false);
         self.w(";");
-        self.defs.push(DefInfo { decl: dd, name: dn, class: Some(c.to_string()) });
+        self.defs.push(DefInfo { decl: dd, name: dn, class: Some(c.to_string()), via_defm: false });
         self.stmt_end("Def", s2, Some(dd), false, Some(defset));
     }
 
@@ -2163,12 +2195,14 @@ impl<'a> Sem<'a> {
             self.p.feat.multiclass_without_targs = true;
         }
         // parent multiclasses
+        let mut self_def: Option<String> = None;
         if !self.mcs.is_empty() && self.rng.chance(1, 3) && self.on("multiclass-parent") {
             let m = self.mcs[self.rng.below(self.mcs.len())].clone();
             self.w(" : ");
             let st = self.here();
             self.mc_ref(&m);
             self.span("multiclass-parent", st);
+            self_def = m.self_def.clone();
         }
         self.w(" {");
         self.indent += 1;
@@ -2179,8 +2213,27 @@ impl<'a> Sem<'a> {
         let k = 1 + self.rng.below(3);
         for _ in 0..k {
             self.nl();
-            match self.rng.below(5) {
+            match self.rng.below(6) {
                 0 => self.defvar_stmt(),
+                4 if self_def.is_none() && self.rng.chance(1, 2) && self.on("defm-record-value") => {
+                    // `def "" : K<…>;` - the record is called like the defm that instantiates the multiclass
+                    let start = self.stmt_begin();
+                    let c = self.classes[self.rng.below(self.classes.len())].name.clone();
+                    self.w("def \"\" : ");
+                    self.class_ref(&c, 1, false);
+                    self.w(";");
+                    let ds = self.in_defset;
+                    self.stmt_end("Def", start, None, false, ds);
+                    self_def = Some(c);
+                }
+                5 if self.on("def-name-paste") => {
+                    // a record named after the defm that instantiates the multiclass: no name of its own
+                    let start = self.stmt_begin();
+                    let tail = self.fresh("p");
+                    self.w(&format!("def NAME#\"_{tail}\";"));
+                    let ds = self.in_defset;
+                    self.stmt_end("Def", start, None, false, ds);
+                }
                 1 if !self.mcs.is_empty() => {
                     let m = self.mcs[self.rng.below(self.mcs.len())].clone();
                     self.w("defm ");
@@ -2206,7 +2259,7 @@ impl<'a> Sem<'a> {
         self.indent -= 1;
         self.nl();
         self.w("}");
-        self.mcs.push(McInfo { decl, name, targs });
+        self.mcs.push(McInfo { decl, name, targs, self_def });
         self.stmt_end("MultiClass", start, Some(decl), true, None);
     }
 
@@ -2241,17 +2294,37 @@ impl<'a> Sem<'a> {
             return self.multiclass_stmt();
         }
         let m = self.mcs[self.rng.below(self.mcs.len())].clone();
+        // after the multiclasses a defm may name classes: its records inherit from them too. A class made
+        // for the purpose, without parents (a record must not reach a class twice)
+        let extra = if self.rng.chance(1, 4) && self.on("defm-class-parent") {
+            self.class_stmt();
+            self.nl();
+            self.classes.last().cloned().filter(|c| c.parents.is_empty())
+        } else {
+            None
+        };
         self.w("defm ");
         let dn = self.fresh("DM");
-        self.declare(DeclKind::Defm, &dn, None, None, None);
+        let defm_decl = self.declare(DeclKind::Defm, &dn, None, None, None);
         self.w(" : ");
         self.mc_ref(&m);
         if self.mcs.len() >= 2 && self.rng.chance(1, 3) {
             let m2 = self.mcs[self.rng.below(self.mcs.len())].clone();
-            if m2.name != m.name {
+            // (two multiclasses that both define a record called like the defm would define it twice)
+            if m2.name != m.name && m2.self_def.is_none() {
                 self.w(", ");
                 self.mc_ref(&m2);
             }
+        }
+        if let Some(c) = &m.self_def {
+            // from here on the name of the defm is a value: the record of class `c` it has defined
+            self.defs.push(DefInfo { decl: defm_decl, name: dn.clone(), class: Some(c.clone()), via_defm: true });
+        }
+        if let Some(c) = extra {
+            self.w(", ");
+            let st = self.here();
+            self.class_ref(&c.name, 1, false);
+            self.span("defm-class-parent", st);
         }
         self.w(";");
     }
